@@ -11,6 +11,7 @@ executable mirror `Gsu/Model/Date.lean` the driver runs against the Go code; `jd
 REGENERATED `julianDayNumber` of core/sudate.go.
 -/
 import Gsu.Proofs.Date
+import Gsu.Proofs.Date2
 import Gsu.Gen.Date
 namespace Gsu.Props.C33
 open Gsu.Date
@@ -103,19 +104,36 @@ theorem field_pack_monotone (a b : Fields) (ha : valid a = true) (hb : valid b =
 
 example : valid ⟨2024, 2, 29, 23, 59, 59, 999⟩ = true ∧ valid ⟨2024, 3, 1, 0, 0, 0, 0⟩ = true := by decide
 
-/-! ## literal text
-FULL statement, NOT proved here (the model `toLiteral`/`fromLiteral` is tied to
-`SuDate.String`/`DateFromLiteral` by the correspondence run and the direct oracle
-`literal-roundtrip` over all three trimmed forms and timestamps):
-  literal_roundtrip : valid f = true → fromLiteral (toLiteral f) = some (f, 0)
-  ts_literal_roundtrip : valid f = true → 0 < x → x < 256 → fromLiteral (tsLiteral f x) = some (f, x)
-Proved: the concrete instances below, one per trimmed form. -/
-theorem literal_roundtrip_partial :
+/-! ## literal text -/
+
+/-- A date's literal text parses back to the same date: `DateFromLiteral (d.String()) = d` for
+EVERY valid date — `String` picks one of the four trimmed forms `#yyyymmdd`, `#yyyymmdd.hhmm`,
+`#yyyymmdd.hhmmss`, `#yyyymmdd.hhmmssmmm` (`toLiteral`), all are covered — and the result is a
+plain date (extra = 0). -/
+theorem literal_roundtrip (f : Fields) (hv : valid f = true) :
+    fromLiteral (toLiteral f) = some (f, 0) :=
+  Gsu.Date.literal_roundtrip f hv
+
+/-- the same for the spelling without the leading `#` (`DateFromLiteral` accepts both) -/
+theorem literal_roundtrip_nohash (f : Fields) (hv : valid f = true) :
+    fromLiteral (toLiteral f).tail = some (f, 0) :=
+  Gsu.Date.literal_roundtrip_nohash f hv
+
+/-- A timestamp's literal text (`SuTimestamp.String`: full date and time plus the three-digit
+extra counter) parses back to the same date and the same counter, for every valid date part and
+every counter 1..255. -/
+theorem ts_literal_roundtrip (f : Fields) (x : Int) (hv : valid f = true) (hx0 : 0 < x) (hx1 : x < 256) :
+    fromLiteral (tsLiteral f x) = some (f, x) :=
+  Gsu.Date.ts_literal_roundtrip f x hv hx0 hx1
+
+/-- one instance per trimmed form and a timestamp -/
+example :
     fromLiteral (toLiteral ⟨2024, 2, 29, 0, 0, 0, 0⟩) = some (⟨2024, 2, 29, 0, 0, 0, 0⟩, 0) ∧
     fromLiteral (toLiteral ⟨1700, 1, 1, 23, 59, 0, 0⟩) = some (⟨1700, 1, 1, 23, 59, 0, 0⟩, 0) ∧
     fromLiteral (toLiteral ⟨2999, 12, 31, 1, 2, 3, 0⟩) = some (⟨2999, 12, 31, 1, 2, 3, 0⟩, 0) ∧
     fromLiteral (toLiteral ⟨2000, 10, 5, 1, 2, 3, 40⟩) = some (⟨2000, 10, 5, 1, 2, 3, 40⟩, 0) ∧
-    fromLiteral (tsLiteral ⟨2000, 10, 5, 1, 2, 3, 40⟩ 255) = some (⟨2000, 10, 5, 1, 2, 3, 40⟩, 255) := by
+    fromLiteral (tsLiteral ⟨2000, 10, 5, 1, 2, 3, 40⟩ 255) = some (⟨2000, 10, 5, 1, 2, 3, 40⟩, 255) ∧
+    toLiteral ⟨2000, 10, 5, 1, 2, 0, 0⟩ = [35, 50, 48, 48, 48, 49, 48, 48, 53, 46, 48, 49, 48, 50] := by
   decide
 
 end Gsu.Props.C33
